@@ -26,6 +26,16 @@ Theorem C09_task_name : forall L,
 Proof. exact env_task_name. Qed.
 Print Assumptions C09_task_name.
 
+(* the condition and the before / after hooks get the same layers without a variation (Run passes them the environment it
+   built before CompileTask adds the variation) *)
+Theorem C09_hooks_and_condition : forall L name, e_variation L = [] ->
+  proc_lookup L name =
+  first_some [ lookup name (e_stage L); lookup name (e_task L); lookup name (e_envfile L);
+               (if Nat.eqb name (fst (e_tname L)) then Some (snd (e_tname L)) else None);
+               lookup name (e_ctx L); lookup name (e_runner L); lookup name (e_parent L) ].
+Proof. intros L name H. rewrite env_precedence, H. reflexivity. Qed.
+Print Assumptions C09_hooks_and_condition.
+
 (* one function, [job_dir], serves commands, before hooks, after hooks and the condition (CompileCommand) *)
 Theorem C09_dir : forall D, job_dir D = first_nonzero [d_stage D; d_task D; d_ctx D; d_start D].
 Proof. exact dir_precedence. Qed.
